@@ -28,6 +28,7 @@ pub mod value_util;
 /// Compiled only with `RUSTFLAGS="--cfg cambrian_verif"`.
 #[cfg(cambrian_verif)]
 pub mod verif_hooks {
+    pub use crate::algorithm::{AlgoContext, IndContext};
     pub use crate::meta_adapt::{create_exploratory, mutate as meta_mutate};
     pub use crate::selection::{Selection, SelectionImpl};
 }
